@@ -6,8 +6,7 @@ MIRROR parts transliterate parquet-go as it is (`encrypt.go`, the encryption bra
 AES-GCM itself is NOT modelled: it enters as an abstract AEAD with the ideal hypotheses `Ideal`.
 
 NOT modelled (tied by the L1 checks of harness/props/c18*.go only): which buffers reach
-`encryptModule` (plaintext leak); row groups created with `BeginRowGroup` (their column writers are
-never given a key: writer.go:737-878 vs 1180-1189); the content of the sealed column metadata; the
+`encryptModule` (plaintext leak); the content of the sealed column metadata; the
 writer's re-read of its own sealed pages for bloom filters (writer.go:2195-2215); nonce generation;
 key retrieval; the thrift encoding of the modules. -/
 namespace PqModel.Aad
@@ -229,7 +228,13 @@ inductive WOp where
   /-- `writer.writeRowGroup` (writer.go:1490-1833) reached through Flush, Close, the row limit or
       `WriteRowGroup`; `last` lists the columns whose `c.Flush()` produces one more page -/
   | flush (last : List Nat)
-  /-- `writer.reset` (writer.go:1201-1233) through `Writer.Reset` / `GenericWriter.Reset` -/
+  /-- `ConcurrentRowGroupWriter.Commit` (writer.go:989-994) of a row group made by `BeginRowGroup`:
+      `writer.flush()` of the writer's own row group (`lastCur`: its columns that still emit a
+      page), then `writeRowGroup(rg)`. The column writers of `rg` hold the key but buffer their
+      values (`awaitOrdinal`: Flush and Close are no-ops) until writeRowGroup has assigned the
+      ordinal, so all their pages (`lastRg`) are sealed inside writeRowGroup. -/
+  | commit (lastCur lastRg : List Nat)
+  /-- `writer.reset` (writer.go:1201-1245) through `Writer.Reset` / `GenericWriter.Reset` -/
   | reset
 deriving DecidableEq, Repr
 
@@ -274,18 +279,38 @@ def wflush (cfg : WCfg) (s : WSt) (last : List Nat) : WSt :=
     rows := false
     log := s.log ++ evs }
 
-/-- writer.go:1201-1233: row groups, indexes and buffers are cleared; NOTHING touches
-    `ColumnWriter.rowGroupOrdinal` (nor `fileEncryptionState.fileUnique`) -/
-def wreset (s : WSt) : WSt :=
+/-- AS IT WAS before the repair (kept as a regression fact): row groups, indexes and buffers were
+    cleared; NOTHING touched `ColumnWriter.rowGroupOrdinal` (nor `fileEncryptionState.fileUnique`) -/
+def wresetBefore (s : WSt) : WSt :=
   { s with nrg := 0, numPages := fun _ => 0, buf := fun _ => [], rows := false, log := [] }
+
+/-- writer.go:1201-1245 (repaired): row groups, indexes and buffers are cleared and, with
+    encryption, every column writer gets `rowGroupOrdinal = 0` (and the file a new identifier:
+    the file identifier is a parameter of the AAD, not of this state machine) -/
+def wreset (s : WSt) : WSt :=
+  { s with nrg := 0, colRg := 0, numPages := fun _ => 0, buf := fun _ => [], rows := false, log := [] }
+
+/-- `Commit`: the writer's own row group first, then the committed one, whose pages are all sealed
+    inside writeRowGroup (its buffers are separate from the writer's, which are empty by then) -/
+def wcommit (cfg : WCfg) (s : WSt) (lastCur lastRg : List Nat) : WSt :=
+  let s1 := wflush cfg s lastCur
+  wflush cfg { s1 with numPages := fun _ => 0, buf := fun _ => [], rows := !lastRg.isEmpty } lastRg
 
 def wstep (cfg : WCfg) (s : WSt) : WOp → WSt
   | .write => { s with rows := true }
   | .page col => wpage s col
   | .flush last => wflush cfg s last
+  | .commit lastCur lastRg => wcommit cfg s lastCur lastRg
   | .reset => wreset s
 
+/-- the step function of the code before the repair -/
+def wstepBefore (cfg : WCfg) (s : WSt) : WOp → WSt
+  | .reset => wresetBefore s
+  | o => wstep cfg s o
+
 def wrun (cfg : WCfg) (ops : List WOp) : WSt := ops.foldl (wstep cfg) winit
+
+def wrunBefore (cfg : WCfg) (ops : List WOp) : WSt := ops.foldl (wstepBefore cfg) winit
 
 /-- writer.close (writer.go:1235-1252): flush, then the page indexes sealed with the loop
     indices `(i, j)` (1343, 1369), then the footer (1423 / 1464) -/
@@ -296,11 +321,7 @@ def wclose (cfg : WCfg) (s : WSt) : List Ev :=
   (List.range s.nrg).flatMap (fun i => (List.range cfg.ncols).map (fun j => (⟨.offsetIndex i j, ⟨.offsetIndex, [i, j]⟩⟩ : Ev))) ++
   [⟨.footer, ⟨.footer, []⟩⟩]
 
-def WOp.isReset : WOp → Bool
-  | .reset => true
-  | _ => false
-
-/-- invariant of every reset-free history -/
+/-- invariant of every history -/
 structure WInv (s : WSt) : Prop where
   rg : s.colRg = s.nrg
   np : ∀ c, s.numPages c = (s.buf c).length
@@ -374,20 +395,30 @@ theorem winv_flush {cfg : WCfg} {s : WSt} (h : WInv s) (last : List Nat) : WInv 
       rw [hn.1] at this
       exact this he
 
-theorem winv_run {cfg : WCfg} (ops : List WOp) (hnr : ∀ o ∈ ops, o.isReset = false) : WInv (wrun cfg ops) := by
+theorem winv_reset {s : WSt} : WInv (wreset s) :=
+  ⟨rfl, fun _ => rfl, fun _ _ h => by simp [wreset] at h, fun _ h => by simp [wreset] at h⟩
+
+theorem winv_commit {cfg : WCfg} {s : WSt} (h : WInv s) (a b : List Nat) : WInv (wcommit cfg s a b) := by
+  unfold wcommit
+  have h1 := winv_flush (cfg := cfg) h a
+  have h2 : WInv { wflush cfg s a with numPages := fun _ => 0, buf := fun _ => [], rows := !b.isEmpty } :=
+    ⟨h1.rg, fun _ => rfl, fun _ _ hp => absurd hp List.not_mem_nil, h1.log⟩
+  exact winv_flush h2 b
+
+theorem winv_run {cfg : WCfg} (ops : List WOp) : WInv (wrun cfg ops) := by
   unfold wrun
   suffices ∀ s, WInv s → WInv (ops.foldl (wstep cfg) s) from this _ winv_init
   induction ops with
   | nil => exact fun s h => h
   | cons o ops ih =>
     intro s h
-    apply ih (fun o ho => hnr o (List.mem_cons_of_mem _ ho))
-    have ho := hnr o (List.mem_cons_self ..)
+    apply ih
     cases o with
     | write => exact ⟨h.rg, h.np, h.buf, h.log⟩
     | page col => exact winv_page h col
     | flush last => exact winv_flush h last
-    | reset => simp [WOp.isReset] at ho
+    | commit a b => exact winv_commit h a b
+    | reset => exact winv_reset (s := s)
 
 theorem wclose_good {cfg : WCfg} {s : WSt} (h : WInv s) : ∀ e ∈ wclose cfg s, e.Good := by
   intro e he
